@@ -85,7 +85,7 @@ static std::string run_local(const vj::Value& c, const Dist::Comm& comm, int per
   for(Index i = 0; i < nloc; ++i)
   {
     if(gate.get_freqs()(i) != DT(1) / DT(cnt[i])) fail("frequency of local dof " + std::to_string(i) + " is " + std::to_string(gate.get_freqs()(i)) + " expected 1/" + std::to_string(cnt[i]));
-    if(cnt[i] == 3) dyadic = false;
+    if((cnt[i] & (cnt[i] - 1)) != 0) dyadic = false;   // 1/count is exact only for powers of two
   }
   // --- sync_0 ------------------------------------------------------------------------------------
   {
